@@ -320,6 +320,17 @@ where
     if overlap {
         rep.violation("composition:dynamic:builtin-sets-overlap", "a constraint position vanishes when either of two different builtins is disabled", json!({"kind": "layout", "layout": "dynamic"}));
     }
+    // every builtin must own at least one constraint position: a builtin none of whose constraints is
+    // switched by its own flag is either unconstrained when enabled or tied to another builtin's flag
+    for (b, name) in USES.iter().enumerate() {
+        let n = owner.iter().filter(|o| **o == Some(b)).count();
+        rep.eval(if n == 0 { "dynamic:builtin-owns-no-position" } else { "dynamic:builtin-owns-positions" });
+        if n == 0 {
+            rep.violation(&format!("composition:dynamic:builtin-without-own-constraints:{}", name),
+                &format!("dynamic: no constraint position is switched by {} alone (its constraints are dropped or follow another builtin's flag)", name),
+                json!({"kind": "layout", "layout": "dynamic"}));
+        }
+    }
     for (i, v) in all_on.iter().enumerate() {
         if *v == Felt::ZERO {
             rep.violation("composition:dynamic:position-vanishes-all-enabled", &format!("dynamic: constraint coefficient {} contributes nothing even with every builtin enabled", i), json!({"kind": "layout", "layout": "dynamic", "position": i}));
